@@ -158,6 +158,7 @@ TRANSLATORS = {
     "py2lean_optvp.py": [],    # ws2doptvp, _ws2doptvp, ws2doptvplc
     "py2lean_spi.py": [],      # gammafit, gammastd, gammastd_grp, gammastd_yxt
     "py2lean_stats.py": [],    # mean_grp, do_mean, autocorr_1d_float, mk_*
+    "py2lean_wcv.py": [],      # ws2dwcv, ws2dwcvp
 }
 
 
